@@ -395,9 +395,20 @@ func init() {
 					cs = append(cs, c)
 				}
 			}
+			live := 6
+			if tier == "thorough" {
+				live = 36
+			}
+			for i := 0; i < live; i++ {
+				mode := []string{"lonely-self", "absent"}[i%2]
+				cs = append(cs, CaseSpec{Kind: "live", P: map[string]int64{"n": int64(3 + (i/2)%4), "limit": int64(3 + (i*5)%8)}, S: map[string]string{"mode": mode}})
+			}
 			return cs
 		},
 		Run: func(cs CaseSpec) *CaseResult {
+			if cs.Kind == "live" {
+				return runC17Live(cs)
+			}
 			if cs.Kind == "suspend" {
 				return runC17Suspend(cs)
 			}
